@@ -215,9 +215,15 @@ def check_narrowing(chk, rule, prog, floor=8, eff=None):
                 import paths as _P
                 cache_ = cache_box.setdefault("c", _O.PathCache(prog, eff))
                 uses, bounded = 0, 0
-                for pa in cache_.get(f.name, inline_static=True):
+                # a unit-internal helper is judged in the context of the functions it is inlined into: what it narrows is
+                # what its callers pass (a value that was widened from the target type for the trip through the helper)
+                hosts = [f.name]
+                if f.internal:
+                    hosts = [g.name for g in prog.lib_funcs() if f.name in _O.static_callees(prog, eff, g.name) and not g.internal] or [f.name]
+                for host in hosts:
+                  for pa in cache_.get(host, inline_static=True):
                     for e in pa.events:
-                        if e.ins is None or e.depth != 0 or e.kind not in ("call", "store"):
+                        if e.ins is None or e.fn is not f or e.kind not in ("call", "store"):
                             continue
                         for k_, o_ in enumerate(e.ins.operands):
                             if o_ is i and k_ < len(e.args):
@@ -230,6 +236,8 @@ def check_narrowing(chk, rule, prog, floor=8, eff=None):
                                         bounded += 1
                                 elif _P.is_const(t_):
                                     bounded += 1
+                                elif host != f.name or e.depth > 0:
+                                    bounded += 1     # the executor folded widen-then-narrow of a value of the target type
                 if uses and uses == bounded:
                     why = "bounded by the path's facts at each of its %d use(s)" % uses
             chk.ob(rule, "%s: a 64-bit value is narrowed to %d bits only as a byte for the output or below a range test" % (f.name, db),
@@ -488,3 +496,137 @@ def check_slot_reads_below_count(chk, rule, prog, eff, floor=8):
                                         "never written (an indefinite container that is not exactly full, a definite one still being filled)",
                    path=pa.block_lines() if not ok else None)
     chk.floor(rule, "slot reads in loops bounded by a count or capacity field", n, floor)
+
+
+# ---------------------------------------------------------------------------
+# field accessors: the instances confirmed on the unchanged tree, frozen by the FIELD each one stands for (resolved to an
+# offset through the struct types on every run).  An accessor answers with the stored value on every path - no second
+# opinion (a plausibility guard, a clamp) between the field and the caller; the rules that reason about "the count", "the
+# length", "the handle" rely on it.
+
+FIELD_GETTERS = {
+    "cbor_array_size": (("_cbor_array_metadata", "end_ptr"),),
+    "cbor_array_allocated": (("_cbor_array_metadata", "allocated"),),
+    "cbor_array_handle": (("cbor_item_t", "data"),),
+    "cbor_map_size": (("_cbor_map_metadata", "end_ptr"),),
+    "cbor_map_allocated": (("_cbor_map_metadata", "allocated"),),
+    "cbor_map_handle": (("cbor_item_t", "data"),),
+    "cbor_string_length": (("_cbor_string_metadata", "length"),),
+    "cbor_string_codepoint_count": (("_cbor_string_metadata", "codepoint_count"),),
+    "cbor_string_handle": (("cbor_item_t", "data"),),
+    "cbor_bytestring_length": (("_cbor_bytestring_metadata", "length"),),
+    "cbor_bytestring_handle": (("cbor_item_t", "data"),),
+    "cbor_string_chunk_count": (("cbor_item_t", "data"), ("cbor_indefinite_string_data", "chunk_count")),
+    "cbor_string_chunks_handle": (("cbor_item_t", "data"), ("cbor_indefinite_string_data", "chunks")),
+    "cbor_bytestring_chunk_count": (("cbor_item_t", "data"), ("cbor_indefinite_string_data", "chunk_count")),
+    "cbor_bytestring_chunks_handle": (("cbor_item_t", "data"), ("cbor_indefinite_string_data", "chunks")),
+    "cbor_tag_value": (("_cbor_tag_metadata", "value"),),
+    "cbor_ctrl_value": (("_cbor_float_ctrl_metadata", "ctrl"),),
+    "cbor_float_get_width": (("_cbor_float_ctrl_metadata", "width"),),
+    "cbor_int_get_width": (("_cbor_int_metadata", "width"),),
+    "cbor_typeof": (("cbor_item_t", "type"),),
+    "cbor_refcount": (("cbor_item_t", "refcount"),),
+}
+
+
+def check_field_getters(chk, rule, prog, eff, names=None):
+    import paths as P
+    meta = prog.field_offset("cbor_item_t", "metadata")
+    n = 0
+    for name, steps in sorted(FIELD_GETTERS.items()):
+        if names is not None and name not in names:
+            continue
+        if name not in prog.funcs:
+            continue       # an accessor that no longer exists has no callers to mislead
+        f = prog.funcs[name]
+        want = ("arg", 0)
+        for st_, fld in steps:
+            o = prog.field_offset(st_, fld)
+            if st_.startswith("_cbor_") and st_.endswith("_metadata"):
+                o += meta
+            want = ("ld", want, o)
+        for k, pa in enumerate(P.Executor(prog, eff).run(name)):
+            r = pa.ret
+            while isinstance(r, tuple) and r[0] == "cast":
+                r = r[3]
+
+            def canon(t):
+                if isinstance(t, tuple) and t[0] == "ld":
+                    return ("ld", canon(t[1]), t[2])
+                return t
+            n += 1
+            ok = canon(r) == want
+            chk.ob(rule, "%s path %d returns the %s field as stored" % (name, k, ".".join(s_[1] for s_ in steps)), ok, "%s:%d" % (f.file, f.line),
+                   fn=name, key="getter:%s:%d" % (name, k), detail="" if ok else "returns %s" % (pa.ret,), path=pa.block_lines() if not ok else None)
+    chk.floor(rule, "accessor paths", n, 1 if names is not None else 15)
+
+
+# ---------------------------------------------------------------------------
+# a block requested with a constant size is only addressed inside that size: every load, store and block copy whose address
+# is a constant offset into a block the same path obtained from the allocator with a constant request lies within the request
+# (`malloc(sizeof(p))`, `malloc(sizeof(struct other))`: glibc's rounding hides the overrun, a tight allocator does not)
+
+def check_fresh_block_bounds(chk, rule, prog, eff, cache, floor=18):
+    import paths as P
+    import ownership as O
+    in_context = set()
+    for g in prog.lib_funcs():
+        in_context |= O.static_callees(prog, eff, g.name)
+    n = 0
+    for f in prog.lib_funcs():
+        if f.name in in_context:
+            continue
+        worst = {}
+        for k, pa in enumerate(cache.get(f.name, inline_static=True)):
+            sizes = {}
+            for e in pa.events:
+                if e.kind == "call" and e.ckind == "alloc" and e.res is not None and e.callee in ("_cbor_malloc", "_cbor_realloc"):
+                    sz = e.args[0] if e.callee == "_cbor_malloc" else e.args[1]
+                    if P.is_const(sz):
+                        sizes[e.res] = (sz[1], e)
+            if not sizes:
+                continue
+            for e in pa.events:
+                if e.kind in ("load", "store"):
+                    b, o = P.ptr_key(e.args[0])
+                    if b in sizes and isinstance(o, int):
+                        ty = e.ins.type if e.kind == "load" else (e.extra if isinstance(e.extra, str) else None)
+                        w = X_elem(prog, ty)
+                        if w is None:
+                            continue
+                        cap, ae = sizes[b]
+                        ok = 0 <= o and o + w <= cap
+                        key = (ae.ins.id, e.ins.id)
+                        if key not in worst or (worst[key][0] and not ok):
+                            worst[key] = (ok, e, "%s of %d byte(s) at offset %d of a block requested with %d byte(s)" % (e.kind, w, o, cap), pa)
+                elif e.kind in ("memcpy", "memset") or (e.kind == "call" and e.callee in ("memcpy", "memset")):
+                    b, o = P.ptr_key(e.args[0])
+                    if b in sizes and isinstance(o, int) and len(e.args) >= 3 and P.is_const(e.args[2]):
+                        cap, ae = sizes[b]
+                        ok = 0 <= o and o + e.args[2][1] <= cap
+                        key = (ae.ins.id, e.ins.id)
+                        if key not in worst or (worst[key][0] and not ok):
+                            worst[key] = (ok, e, "block write of %d byte(s) at offset %d of a block requested with %d byte(s)" % (e.args[2][1], o, cap), pa)
+        for (aid, iid), (ok, e, det, pa) in worst.items():
+            n += 1
+            chk.ob(rule, "%s: an access at a constant offset stays inside the block the allocator was asked for" % f.name, ok, e.ins.loc(),
+                   fn=f.name, key="%s:blk:%d:%d" % (f.name, aid, iid), detail="" if ok else det, path=pa.block_lines() if not ok else None)
+    chk.floor(rule, "constant-offset accesses to constant-size fresh blocks", n, floor)
+
+
+def X_elem(prog, ty):
+    if not isinstance(ty, str):
+        return None
+    if ty.endswith("*"):
+        return 8
+    b = _int_bits(ty)
+    if b is not None:
+        return max(1, b // 8)
+    if ty == "float":
+        return 4
+    if ty == "double":
+        return 8
+    s = prog.structs.get(ty.lstrip("%"))
+    if s and "size" in s:
+        return s["size"]
+    return None
